@@ -468,7 +468,8 @@ Module SshCheck.
 Record case := mkS {
   z_id : N;
   z_user : bytes;
-  z_passwords : list bytes;       (* presented in this order on one connection *)
+  z_passwords : list bytes;       (* the client's plan: presented in this order on one connection, until one is accepted *)
+  z_pubkeys : N;                  (* distinct public keys the client offers before its passwords (after the initial none request) *)
   z_accept : bytes;               (* the password the backend accepts for the user *)
   z_reqs : list smsg;             (* channel requests the client sends, in order *)
   z_data : list bytes;            (* channel data the client writes *)
@@ -476,10 +477,16 @@ Record case := mkS {
   z_texty : bool;
   z_halfclose : bool;             (* the client ends its direction (EOF) after its data; the backend writes its reply only then *)
   o_ok : bool;                    (* observed: the client was authenticated *)
+  o_pksent : N;                   (* observed: public-key offers the client made *)
+  o_sent : N;                     (* observed: passwords the client sent (a prefix of its plan) *)
+  o_verdicts : list N;            (* observed: what the client was told per password sent: 0 failure, 1 success, 2 nothing (the connection was ended) *)
+  o_end : N;                      (* observed: 0 authenticated, 1 the client was out of credentials and stopped by itself (told failure for
+                                     each, asked for more), 2 the peer ended the connection while the client had more to send *)
   o_bauth : list (bytes * bytes); (* observed: (user, password) attempts at the backend *)
   o_bconns : N;
   o_breqs : list smsg; o_bdata : bytes; o_cdata : bytes;
   o_replies : list bool;          (* what the client was told for its want-reply requests *)
+  o_evpk : N;                     (* observed: publickey-authentication events attributed to the client *)
   o_evpw : list (bytes * bytes); o_evreqs : list bytes; o_evchan : N; o_evsess : N;
   o_rec : bytes; o_attr : bool
 }.
@@ -525,10 +532,27 @@ Definition client_msgs (c : case) : list smsg := z_reqs c ++ map MData (z_data c
 Definition sched (c : case) : list dev :=
   map DC (z_data c) ++ (if z_halfclose c then [DCEof] else []) ++ map DB (z_reply c) ++ [DBEof].
 
+(* the client's plan as a dialogue: the initial none request, the public-key offers, the passwords *)
+Definition plan (c : case) : list areq :=
+  ANone :: repeat APub (N.to_nat (z_pubkeys c)) ++ map APw (z_passwords c).
+Definition dialogue (c : case) : auth_obs :=
+  auth_dialogue PROXY_MAX_AUTH_TRIES (accepts c) (z_user c) 0 (plan c).
+Definition verdict_code (v : averdict) : N := match v with VFail => 0 | VOk => 1 | VClosed => 2 end%N.
+(* the verdicts on the passwords (the plan's requests after none and the offers) *)
+Definition pw_verdicts (c : case) (d : auth_obs) : list N :=
+  map verdict_code (skipn (S (N.to_nat (z_pubkeys c))) (au_verdicts d)).
+Definition has_code (x : N) (l : list N) : bool := existsb (N.eqb x) l.
+
 Definition agrees (c : case) : bool :=
   let '(tried, ok) := auth_run (accepts c) (attempts c) in
+  let d := dialogue c in
   Bool.eqb ok (o_ok c) && eqb_list eqb_cred tried (o_bauth c) && (o_bconns c =? N.of_nat (length tried))%N &&
   eqb_list eqb_cred tried (o_evpw c) && o_attr c &&
+  (* the dialogue request by request *)
+  eqb_list eqb_cred (au_saw d) (o_bauth c) && (o_sent c =? N.of_nat (length (au_saw d)))%N &&
+  eqb_list N.eqb (pw_verdicts c d) (o_verdicts c) && Bool.eqb (has_code 1 (pw_verdicts c d)) (o_ok c) &&
+  (o_pksent c =? z_pubkeys c)%N && (o_evpk c =? au_pk d)%N && au_open d &&
+  (o_end c =? (if ok then 0 else 1))%N &&
   if ok then
     let relayed := ssh_relay (client_msgs c) [] in
     eqb_list eqb_smsg (reqs_of relayed) (o_breqs c) && eqb_bytes (data_of relayed) (o_bdata c) &&
@@ -553,21 +577,33 @@ Definition SIG_CONNS := 6%N.
 Definition SIG_STATUS := 7%N.
 Definition SIG_REPLY_RACE := 9%N.     (* the client was never told the outcome of a request the backend answered right before closing the channel (repaired: e6ccfa1) *)
 Definition SIG_HALFCLOSE := 10%N.     (* the client ended its direction, what the backend wrote afterwards (or requests it had sent before) did not arrive (repaired: 3aa99de) *)
+Definition SIG_AUTH_LOST := 11%N.     (* a credential the client sent on its connection was never presented to the backend *)
+Definition SIG_AUTH_VERDICT := 12%N.  (* the client was told something else than the backend's verdict on the credential *)
+Definition SIG_AUTH_CLOSED := 13%N.   (* the proxy ended the connection while the client was still authenticating: an attempt without
+                                         a verdict, or the client cut off before it was accepted or had stopped by itself *)
 Definition SIG_TRUNCATED := 8%N.      (* the client received only a proper prefix of the backend's channel data / request replies (repaired: fc51d79) *)
 
-(* the property on the observation: the backend sees the presented credentials, attempt
-   by attempt, until it accepts one; then requests and data as sent, the backend's data
-   reaches the client; one event per attempt / request / channel / session *)
+(* the property on the observation: the backend sees the credentials the client SENT (the
+   prefix of its plan that it got to send), attempt by attempt, in order, once - however
+   many there are; the client is told the backend's verdict on each; the connection is not
+   ended under a client that has more to try; then requests and data as sent, the
+   backend's data reaches the client; one event per attempt / offer / request / channel /
+   session *)
 Definition case_sigs (c : case) : list N :=
   let att := attempts c in
   let n := length (o_bauth c) in
-  let cred_ok :=
-    eqb_list eqb_cred (firstn n att) (o_bauth c) &&
-    (if o_ok c then match rev (o_bauth c) with x :: _ => accepts c x | [] => false end
-     else (n =? length att)%nat && negb (existsb (accepts c) att)) in
-  (if cred_ok then [] else [SIG_CRED])
+  let sent := firstn (N.to_nat (o_sent c)) att in
+  let backend_says := map (fun x => if accepts c x then 1 else 0)%N sent in
+  (* what the backend saw is what was presented, unchanged and in order, and nothing the client did not send *)
+  (if eqb_list eqb_cred (firstn n att) (o_bauth c) && (n <=? length sent)%nat then [] else [SIG_CRED])
+  (* ... and all of it *)
+  ++ (if (n <? length sent)%nat then [SIG_AUTH_LOST] else [])
+  ++ (if eqb_list N.eqb (o_verdicts c) backend_says then []
+      else if has_code 2 (o_verdicts c) then [SIG_AUTH_CLOSED] else [SIG_AUTH_VERDICT])
+  ++ (if (o_end c =? 2)%N then [SIG_AUTH_CLOSED] else [])
+  ++ (if Bool.eqb (o_ok c) (o_end c =? 0)%N && Bool.eqb (o_ok c) (has_code 1 (o_verdicts c)) then [] else [SIG_AUTH_VERDICT])
   ++ (if (o_bconns c =? N.of_nat n)%N then [] else [SIG_CONNS])
-  ++ (if eqb_list eqb_cred (o_bauth c) (o_evpw c) && o_attr c then [] else [SIG_EVENT])
+  ++ (if eqb_list eqb_cred (o_bauth c) (o_evpw c) && (o_evpk c =? o_pksent c)%N && o_attr c then [] else [SIG_EVENT])
   ++ (if o_ok c then
         (if eqb_list eqb_smsg (z_reqs c) (o_breqs c) then []
          else if z_halfclose c && prefix_list eqb_smsg (o_breqs c) (z_reqs c) then [SIG_HALFCLOSE] else [SIG_REQS])
@@ -584,14 +620,17 @@ Definition violations (cs : list case) : list (N * N) :=
   nodup_pairs (flat_map (fun c => map (fun s => (z_id c, s)) (case_sigs c)) cs).
 
 (* 1 = rejected, 2 = first password accepted, 4 = accepted after rejected attempts;
-   +8 channel requests, +16 more than 16 KiB in one direction *)
+   +8 channel requests, +16 more than 16 KiB in one direction, +32 more than five refused
+   authentication requests on the connection, +64 public-key offers before the passwords *)
 Definition tags (cs : list case) : list (N * N) :=
   map (fun c =>
     let '(tried, ok) := auth_run (accepts c) (attempts c) in
     (z_id c,
      (if ok then (match tried with [_] => 2 | _ => 4 end) else 1)
      + (match z_reqs c with [] => 0 | _ => 8 end)
-     + (if (16384 <? N.of_nat (length (concat (z_data c))))%N || (16384 <? N.of_nat (length (concat (z_reply c))))%N then 16 else 0))%N) cs.
+     + (if (16384 <? N.of_nat (length (concat (z_data c))))%N || (16384 <? N.of_nat (length (concat (z_reply c))))%N then 16 else 0)
+     + (if (5 <? z_pubkeys c + N.of_nat (length (filter (fun x => negb (accepts c x)) tried)))%N then 32 else 0)
+     + (if (0 <? z_pubkeys c)%N then 64 else 0))%N) cs.
 
 End SshCheck.
 
